@@ -268,7 +268,7 @@ def gen_overrun_split(tier, seed):
     return cases
 
 
-def gen_after_exception(tier, seed):
+def gen_after_exception(tier, seed, closers=None, prefix="e"):
     """After a client exception the Connection.Close it queued is the last frame ever sent: flushed
     completely / partly / not at all, then submissions on one or two channels, a client close, frames
     from the server, transport events in every order."""
@@ -276,7 +276,7 @@ def gen_after_exception(tier, seed):
     rng = Rng(seed + 7007)
     cases = []
     n = 0
-    excs = [lambda g: mg.not_allowed(rng, 1), lambda g: mg.not_implemented(rng, 2), lambda g: mg.header(0, 3), lambda g: mg.connection_on_channel(rng, 1)]
+    excs = closers or [lambda g: mg.not_allowed(rng, 1), lambda g: mg.not_implemented(rng, 2), lambda g: mg.header(0, 3), lambda g: mg.connection_on_channel(rng, 1)]
     flushes = ["full", "partial", "none"]
     afters = ["send1", "send2", "close0", "frame", "write", "stream-w", "stream-rw"]
     for ei, mk in enumerate(excs):
@@ -290,7 +290,9 @@ def gen_after_exception(tier, seed):
                 h1 = g.open_channel(1); g.bind_opened(h1, 1)
                 h2 = g.open_channel(2); g.bind_opened(h2, 2)
                 g.op("wscript w:1000000"); g.op("write")
-                g.feed([mk(g)], direct=True)
+                f = mk(g)
+                if f is not None:           # (None: the closer has issued its own operations)
+                    g.feed([f], direct=True)
                 g.op("dump")
                 if fl == "full":
                     g.op("wscript w:1000000"); g.op("ev stream w")
@@ -315,7 +317,7 @@ def gen_after_exception(tier, seed):
                     g.op("dump")
                 g.op("wscript w:1000000"); g.op("write"); g.op("dump")
                 g.finish()
-                cases.append(g.case("e%d" % n))
+                cases.append(g.case("%s%d" % (prefix, n)))
     return cases
 
 
